@@ -24,6 +24,8 @@ pub mod c13;
 pub mod c17;
 pub mod c18;
 pub mod c19;
+#[cfg(feature = "async")]
+pub mod c20;
 pub mod c14;
 pub mod c15;
 pub mod c16;
@@ -259,6 +261,8 @@ pub fn run(id: &str, tier: Tier, rest: &[String]) -> i32 {
         "C17" => c17::run(tier, part),
         "C18" => c18::run(tier, part),
         "C19" => c19::run(tier, part),
+        #[cfg(feature = "async")]
+        "C20" => c20::run(tier, part),
         "C14" => c14::run(tier, part),
         "C15" => c15::run(tier, part),
         "C16" => c16::run(tier, part),
@@ -292,6 +296,8 @@ pub fn replay(file: &str) -> i32 {
         "C17" => c17::replay(tier, &doc["replay"]),
         "C18" => c18::replay(&doc["replay"]),
         "C19" => c19::replay(&doc["replay"]),
+        #[cfg(feature = "async")]
+        "C20" => c20::replay(tier, &doc["replay"]),
         "C08" => c08::replay(tier, &doc["replay"]),
         "C09" => c09::replay(tier, &doc["replay"]),
         "C10" => c10::replay(tier, &doc["replay"]),
